@@ -150,6 +150,9 @@ const TAGS: &[&str] = &[
     "<view title=\"&amp;lt; &amp;amp; &lt;b&gt; &#38;quot;\">&amp;lt;{{ a }}&amp;amp;</view>",
     "<view title=\"{{ 'a\"b' + a }}\" alt='{{ \"c\\'d\" + b }}'>{{ '<' + a + '>' + \"&amp;\" }}</view>",
     "<text>{ {{ a }} } {{ '{{' }} {{ '}}' + b }} }} {</text>",
+    "<text>&#123;&#123;&#123; b }}</text><text>&#123;&#123;{{ a }}</text><text>x&#123;&#123;&#123;&#123;{{ b }}</text><text>&#123;{{ c }}&#123;&#123;&#123;</text>",
+    "<view title=\"&#123;&#123;{{ a }}\" data-x=\"&#123;&#123;&#123;\" mark:m=\"q&#123;&#123;{{ b }}&#123;\"/>",
+    "<text>{{ '{{{' + a }}{{ '{{' }}{{ b }}</text>",
     "<view title=\"line1\nline2\t{{ a }}\">x\ty</view>",
     "<text>é{{ 'ü' + a }}漢字{{ b }}😀{{ '😀' }}</text><view data-é=\"{{ a }}\" title=\"ñ\"/>",
     "<text>{{ _$0 }}:{{ _$1 + a }}</text><view wx:for=\"{{ l2 }}\">{{ _$0 }}{{ item }}</view>",
